@@ -35,7 +35,7 @@ MODELS = {
     "thorough": [("all_4v_w1234", "MC_EdgeCollapse_w4t.cfg", 0), ("all_5v_one_weight", "MC_EdgeCollapse_u5.cfg", 0),
                  ("sample_5v_w123", "MC_EdgeCollapse_s5.cfg", 400), ("sample_6v_w123", "MC_EdgeCollapse_s6.cfg", 4000)],
 }
-RANDOM = {"quick": (200, 0, 1), "thorough": (4000, 1500, 8)}   # random 7-9 vertices, random "big", sparse
+RANDOM = {"quick": (200, 0, 4), "thorough": (4000, 1500, 12)}   # random 7-9 vertices, random "big", sparse
 NARROW = ("ushort", "uchar")
 
 
